@@ -6,6 +6,7 @@ import (
 	"io"
 	"runtime/debug"
 	"strings"
+	"sync"
 	"testing"
 
 	"verif/fw"
@@ -17,22 +18,44 @@ import (
 // ---- C09: random-access reads through an index return exactly the blob's bytes ----
 
 // catch runs f and turns a panic into a violation; it reports whether f panicked.
+func panicSite(st, deflt string) string {
+	for _, l := range strings.Split(st, "\n") {
+		if strings.HasPrefix(l, "github.com/folbricht/desync.") && !strings.Contains(l, "Verif") && !strings.Contains(l, "verif") {
+			fn := strings.TrimPrefix(l, "github.com/folbricht/desync.")
+			if i := strings.LastIndex(fn, "("); i > 0 {
+				fn = fn[:i]
+			}
+			return fn
+		}
+	}
+	return deflt
+}
+
+// catch runs f (a call into desync outside the simulated runtime) and turns a panic - of the calling goroutine or of
+// a goroutine desync started - into a violation.
 func catch(c *fw.Case, site string, f func()) (panicked bool) {
+	var mu sync.Mutex
+	var gr any
+	var gst string
+	desync.VerifSetPanicHook(func(r any, st []byte) {
+		mu.Lock()
+		if gr == nil {
+			gr, gst = r, string(st)
+		}
+		mu.Unlock()
+	})
 	defer func() {
+		desync.VerifSetPanicHook(nil)
 		if r := recover(); r != nil {
 			panicked = true
-			st := string(debug.Stack())
-			fn := site
-			for _, l := range strings.Split(st, "\n") {
-				if strings.HasPrefix(l, "github.com/folbricht/desync.") && !strings.Contains(l, "Verif") && !strings.Contains(l, "verif") {
-					fn = strings.TrimPrefix(l, "github.com/folbricht/desync.")
-					if i := strings.LastIndex(fn, "("); i > 0 {
-						fn = fn[:i]
-					}
-					break
-				}
-			}
-			c.Violate("panic", fn, "%s panicked: %v", site, r)
+			c.Violate("panic", panicSite(string(debug.Stack()), site), "%s panicked: %v", site, r)
+			return
+		}
+		mu.Lock()
+		defer mu.Unlock()
+		if gr != nil {
+			panicked = true
+			c.Violate("panic", panicSite(gst, site), "a goroutine started by %s panicked: %v", site, gr)
 		}
 	}()
 	f()
